@@ -33,7 +33,7 @@ fn body(name: &str, v: &[u64]) -> Result<(), String> {
             }
             Ok(())
         }
-        "c18_generate_minmax" => {
+        n if n.starts_with("c18_generate_minmax") => {
             let (min, max) = (f(1), f(2));
             let mut gen = Generator::create(g(0));
             let a = gen.generate(min, max);
